@@ -185,7 +185,11 @@ def finish (st : St) : List String :=
   [s!"dir const finished={consts.length} unfinished={uc}"] ++
   ((List.range consts.length).zip consts).flatMap (fun (k, g) => g ["const"] k)
 
+/-- the daemon refused the configuration (`ParseConfig` returned an error): nothing else happens in the case -/
+def configRejected (st : St) : Bool := st.f.getLast? == some "error"
+
 def step (st : St) (bl : Block) : St × List String :=
+  if configRejected st then (st, []) else
   match bl.op with
   | ["b", _, hex] => ({ st with bytes := st.bytes ++ WriterStream.parseHexBytes hex }, [])
   | ["t"] => ({ st with reqOffsets := st.bytes.size :: st.reqOffsets }, [])
@@ -229,7 +233,7 @@ def gateVariants (f : List String) : List (String × List String) :=
    ("disk-check-passed", setKv f "disk" "1"),
    ("disk-check-failed", setKv f "disk" "0")]
 
-def monStep (m : MSt) (bl : Block) : MSt × List String :=
+def monStep' (m : MSt) (bl : Block) : MSt × List String :=
   let (st', _) := step m.st bl
   match bl.op with
   | ["end"] =>
@@ -260,6 +264,19 @@ def monStep (m : MSt) (bl : Block) : MSt × List String :=
     if exp == bl.outs then ({ m with st := st' }, [])
     else ({ m with st := st' }, [classify (exp.headD []) []])
   | _ => ({ m with st := st' }, [])
+
+def monStep (m : MSt) (bl : Block) : MSt × List String :=
+  -- recorder.NewConfig: a configuration is refused exactly when max-secs < min-secs (C03's premise min <= max)
+  let cfgFail : List String :=
+    if m.items != 0 then [] else
+    let invalid := kvN m.st.f "max" < kvN m.st.f "min"
+    if configRejected m.st && !invalid then ["prop=C11 reason=valid-configuration-refused"]
+    else if !configRejected m.st && invalid then ["prop=C03 reason=configuration-with-max-secs-below-min-secs-accepted"]
+    else []
+  let m := { m with items := m.items + 1 }
+  if configRejected m.st then (m, cfgFail) else
+  let (m, fl) := monStep' m bl
+  (m, cfgFail ++ fl)
 
 def monFinish (m : MSt) : List String :=
   [s!"STAT stream=e2e files={m.files} decodedframes={m.frames} bytes={m.st.bytes.size} testrequests={m.st.reqOffsets.length} " ++
